@@ -2,7 +2,9 @@
   Engine `undo` (C15).  One op line = one whole history on a fresh UndoHistory.
     H <tok>…  with  R <addr-hex> <tag> <old-hex8> <new-hex8> | S <k> | T <d>
     E <tok>…  with  P <idx> <val-hex8> | S <k> | T <d>       (end to end, four ports)
-  Output: one token per op (see harness/undo.cpp).
+  Output: one token per op (see harness/undo.cpp); the whole line is `ood` when it lies
+  outside the domain the property is claimed for (an address of 248 bytes or more; a
+  negative clock step after the first R / P).
 -/
 import RtoscModel.Undo
 import Driver.Common
@@ -53,14 +55,21 @@ def portValue (tag : UInt8) (v : UInt32) : UInt32 :=
 def showStore (σ : Store) : String :=
   "|" ++ ",".intercalate (ports.map fun p => hex8 (σ p.1))
 
+/-- The address bound of the claimed domain (number of the property module; `Props/C15.lean`
+    `fits_iff_short` shows it is exactly "the set-message fits the library's buffer"). -/
+def domainAddrLimit : Nat := 248
+
 structure Run where
   A   : App
   out : List String   -- reversed
+  ood : Bool := false        -- the line left the claimed domain
+  recorded : Bool := false   -- an R / P op has been seen
 
 def emitTok (r : Run) (A : App) (tok : String) (e2e : Bool) : Run :=
-  ⟨A, (if e2e then tok ++ showStore A.σ else tok) :: r.out⟩
+  { r with A := A, out := (if e2e then tok ++ showStore A.σ else tok) :: r.out }
 
 def finish (r : Run) : String :=
+  if r.ood then "ood" else
   if r.out.isEmpty then "-" else " ".intercalate r.out.reverse
 
 /-- token loop; `fuel` = number of tokens (each op consumes at least two). -/
@@ -74,6 +83,7 @@ def go (e2e : Bool) : Nat → List String → Run → String
       if (c = 'i' || c = 'f' || c = 'c') && addr.all (· ≠ 0) then
         let u := recordEvent r.A.clock ⟨addr, UInt8.ofNat c.toNat, ov, nv⟩ r.A.u
         let A := { r.A with u := u }
+        let r := { r with ood := r.ood || decide (addr.length ≥ domainAddrLimit), recorded := true }
         go e2e fuel rest (emitTok r A (posz u) e2e)
       else "bad-op"
     | _, _, _, _ => "bad-op"
@@ -86,7 +96,7 @@ def go (e2e : Bool) : Nat → List String → Run → String
       | some (a, tag) =>
         match r.A.step (.set a tag (portValue tag val)) with
         | none => "oob"
-        | some (A, _) => go e2e fuel rest (emitTok r A (posz A.u) e2e)
+        | some (A, _) => go e2e fuel rest (emitTok { r with recorded := true } A (posz A.u) e2e)
     | _, _ => "bad-op"
   | fuel + 1, "S" :: k :: rest, r =>
     match parseInt k (-2147483648) 2147483647 with
@@ -101,13 +111,14 @@ def go (e2e : Bool) : Nat → List String → Run → String
     | some d =>
       match r.A.step (.tick d) with
       | none => "oob"
-      | some (A, _) => go e2e fuel rest ⟨A, "t" :: r.out⟩
+      | some (A, _) =>
+        go e2e fuel rest { r with A := A, out := "t" :: r.out, ood := r.ood || (decide (d < 0) && r.recorded) }
   | _, _, _ => "bad-op"
 
 def step (line : String) : String :=
   match words line with
-  | "H" :: rest => go false rest.length rest ⟨App.init (fun _ => 0) 1000000, []⟩
-  | "E" :: rest => go true rest.length rest ⟨App.init (fun _ => 0) 1000000, []⟩
+  | "H" :: rest => go false rest.length rest { A := App.init (fun _ => 0) 1000000, out := [] }
+  | "E" :: rest => go true rest.length rest { A := App.init (fun _ => 0) 1000000, out := [] }
   | _ => "bad-op"
 
 def engine : Driver.Engine := Driver.stateless step
